@@ -358,7 +358,7 @@ def _match(idx, pattern):
     return True
 
 
-def _group_ok(vg, first, idx_list, labels, patterns=True):
+def _group_ok(vg, first, idx_list, labels, patterns=True, zero_ok=()):
     ids = list(vg)
     n = len(idx_list)
     if ids != list(range(first, first + n)) or len(vg) != n:
@@ -404,6 +404,27 @@ def _group_ok(vg, first, idx_list, labels, patterns=True):
             else:
                 if got is not None and got != want:     # a fully specified index outside the domain must be refused
                     return False
+        # a wildcard pattern whose fixed coordinate lies outside the domain is refused (never an empty or a
+        # made-up enumeration, never another exception type)
+        for pos in range(arity):
+            for bad in (0, -1, 99):
+                if arity == 1:
+                    continue
+                pat = [None] * arity
+                pat[pos] = bad
+                if bad == 0 and pos in zero_ok:
+                    continue
+                try:
+                    list(vg.indices(*pat))
+                    return False
+                except ValueError:
+                    pass
+                try:
+                    r = vg(*pat)
+                    list(r)
+                    return False
+                except ValueError:
+                    pass
     return True
 
 
@@ -656,7 +677,7 @@ def _e_mapping(n, m, off, binary):
         labels = ['v({},{})'.format(i, b) for (i, b) in idx]
         if list(V.domain()) != list(range(1, n + 1)) or list(V.range()) != list(range(m)):
             return False
-        return _group_ok(V, off + 1, idx, labels) and _outside_refused(V, idx, 2, max(n, k) + 1)
+        return _group_ok(V, off + 1, idx, labels, zero_ok=(1,)) and _outside_refused(V, idx, 2, max(n, k) + 1)
     V = F.new_mapping(n, m)
     idx = [(i, j) for i in range(1, n + 1) for j in range(1, m + 1)]
     labels = ['f({})={}'.format(i, j) for (i, j) in idx]
